@@ -79,17 +79,22 @@ func verifRoot() string {
 }
 
 func (r *Rec) loadFindings() {
-	b, err := os.ReadFile(filepath.Join(verifRoot(), "known_findings.json"))
-	if err != nil {
-		return
-	}
-	var ff findingsFile
-	if json.Unmarshal(b, &ff) != nil {
-		return
-	}
-	for _, f := range ff.Findings {
-		if f.Property == r.id && f.Status == "open" {
-			r.open[f.Key] = f.What
+	files := []string{filepath.Join(verifRoot(), "known_findings.json")}
+	frags, _ := filepath.Glob(filepath.Join(verifRoot(), "known_findings.d", "*.json"))
+	files = append(files, frags...)
+	for _, fn := range files {
+		b, err := os.ReadFile(fn)
+		if err != nil {
+			continue
+		}
+		var ff findingsFile
+		if json.Unmarshal(b, &ff) != nil {
+			continue
+		}
+		for _, f := range ff.Findings {
+			if f.Property == r.id && f.Status == "open" {
+				r.open[f.Key] = f.What
+			}
 		}
 	}
 }
